@@ -201,6 +201,12 @@ func RunNet(cases []reg.Case, out *reg.Out) {
 				continue
 			}
 			out.Cov("op:net")
+			dline, dpaths := streamLine(out, b)
+			dmsgs := dpaths[0].msgs
+			dend := "err"
+			if strings.HasPrefix(dline, fmt.Sprintf("%d eof", len(dmsgs))) {
+				dend = "eof"
+			}
 			rig.recv.take()
 			how, err := rig.send(b)
 			if err != nil {
@@ -208,7 +214,7 @@ func RunNet(cases []reg.Case, out *reg.Out) {
 				out.Line("no-stream")
 				continue
 			}
-			rig.settle(how == "reset", wantK)
+			rig.settle(how == "reset", len(dmsgs))
 			evs := rig.recv.take()
 			var nfs []string
 			errs, afterErr := 0, false
@@ -238,6 +244,17 @@ func RunNet(cases []reg.Case, out *reg.Out) {
 			}
 			if (errs > 0) != (how == "reset") {
 				out.Fail("net-error-report", "ReceiveError calls: %d, but the stream was %s", errs, how)
+			}
+			// C12: "a malformed message is reported as a receive error and its stream is reset" --
+			// what is malformed is decided by the decoder itself, asked directly (successive FromNet
+			// calls on the same bytes, a code path that does not go through handleNewStream's error
+			// test): every message it yields must have been delivered, and if it stops with anything
+			// but a bare end of input, the stream must have been reset with one ReceiveError.
+			if len(nfs) != len(dmsgs) {
+				out.Fail("net-malformed", "the decoder yields %d messages for these bytes, the stream handler delivered %d", len(dmsgs), len(nfs))
+			}
+			if dend != end {
+				out.Fail("net-malformed", "the decoder ends these bytes with %s, the stream handler with %s (stream %s): a message that fails to decode must give one ReceiveError and a reset", dend, end, how)
 			}
 			if wantK >= 0 {
 				if len(nfs) != wantK {
@@ -291,7 +308,7 @@ func GenNet(seed int64, n int, tier string, w *bufio.Writer) {
 		}
 		_, hl := binary.Uvarint(good)
 		payload := good[hl:]
-		switch r.Intn(14) {
+		switch r.Intn(20) {
 		case 0, 1, 2:
 			if k == 0 {
 				kind = "empty"
@@ -326,6 +343,44 @@ func GenNet(seed int64, n int, tier string, w *bufio.Writer) {
 		case 11: // empty frame
 			all = append(all, 0x00)
 			end, kind = "err", "zero-length"
+		case 14, 15: // well-framed, well-formed CBOR, but a block whose CID prefix is empty / cut / garbage
+			// (go-cid reports these as "invalid cid: EOF" / "unexpected EOF": errors WRAPPING io.EOF)
+			pfx := [][]byte{{}, {0x01}, {0x01, 0x55}, {0x01, 0x55, 0x12}, {0x80}, {0x01, 0x55, 0x92}, {0x01, 0x80, 0x80},
+				{0xff, 0xff, 0xff, 0xff, 0xff, 0xff, 0xff, 0xff, 0xff, 0xff}, {0x02, 0x55, 0x12, 0x20}, {0x01, 0x55, 0x7f, 0x20}}[r.Intn(10)]
+			blk := Ar(Bs(pfx), Bs(rndBytes(r, r.Intn(20))))
+			inner := Mp(kv("blk", Ar(blk)))
+			if r.Intn(2) == 0 {
+				inner = Mp(kv("blk", Ar(Ar(Bs([]byte{0x01, 0x55, 0x12, 0x20}), Bs([]byte("ok"))), blk)),
+					kv("req", Ar(Mp(kv("id", Bs(rndBytes(r, 16))), kv("type", Tx("c"))))))
+			}
+			all = append(all, frameOf(Mp(kv("gs2", inner)).enc(nil))...)
+			end, kind = "err", "bad-block-prefix"
+		case 16: // other payload-level errors inside a complete frame: links with cut / empty CIDs, short ids
+			c := rndCid(r).Bytes()
+			bad := []*V{
+				{K: 'b', B: append([]byte{0}, c[:len(c)/2]...), Tags: []uint64{42}},
+				{K: 'b', B: []byte{0}, Tags: []uint64{42}},
+				{K: 'b', B: []byte{0, 1}, Tags: []uint64{42}},
+				{K: 'b', B: []byte{0, 1, 0x55, 0x12, 0x20, 1, 2, 3}, Tags: []uint64{42}},
+			}[r.Intn(4)]
+			all = append(all, frameOf(Mp(kv("gs2", Mp(kv("req", Ar(Mp(kv("id", Bs(rndBytes(r, 16))), kv("type", Tx("n")), kv("root", bad))))))).enc(nil))...)
+			end, kind = "err", "bad-link"
+		case 17, 18, 19: // a mutated encoding of a real message (what is expected is asked of the decoder)
+			t, _ := parseTree(payload)
+			if t != nil {
+				kind = "mutated:" + mutateMessageTree(r, t)
+				if r.Intn(3) == 0 {
+					kind += "+" + mutateTree(r, t)
+				}
+				out := frameOf(t.enc(nil))
+				if len(out) < 1<<16 {
+					hints = append(hints, hintsForTree(t)...)
+					all = append(all, out...)
+					k, end = -1, ""
+				} else {
+					kind = "clean"
+				}
+			}
 		case 12, 13: // a complete frame whose DAG-CBOR content stops early (CBOR is prefix-free: never valid)
 			if len(payload) > 1 {
 				all = append(all, frameOf(payload[:1+r.Intn(len(payload)-1)])...)
@@ -337,7 +392,11 @@ func GenNet(seed int64, n int, tier string, w *bufio.Writer) {
 			all = goBytes(sizedMessage(r, 1<<22).toks(), false)
 			k, end, kind, hints = 1, "eof", "at-limit", nil
 		}
-		emit(w, "case n%d k=%d end=%s %s", i, k, end, kind)
+		if k < 0 {
+			emit(w, "case n%d %s", i, kind)
+		} else {
+			emit(w, "case n%d k=%d end=%s %s", i, k, end, kind)
+		}
 		for _, h := range hints {
 			emit(w, "%s", h)
 		}
